@@ -941,6 +941,9 @@ class EqCongurentPredMacro(Macro):
         if args[-1].is_not() and args[-1].arg.head != args[-2].head:
             raise VeriTException("eq_congruent_pred", "the last two arguments should have the same head")
 
+        if not all(arg.is_not() and arg.arg.is_equals() for arg in args[:-2]):
+            raise VeriTException("eq_congruent_pred", "all arguments except the last two should be negations of equalities")
+
         goal = Or(*args)
         elems = goal.strip_disj()
         preds, pred_fun, concl = elems[:-2], elems[-2], elems[-1] 
